@@ -13,6 +13,7 @@ mod lp;
 mod gac;
 mod sudoku;
 mod validate;
+mod opt;
 mod out;
 mod rng;
 mod ss;
@@ -54,6 +55,7 @@ fn main() {
         "lower" => lower::suite(&mut out, seed, count, &args),
         "determ" => determ::suite(&mut out, seed, count, &args),
         "validate" => validate::suite(&mut out, seed, count, &args),
+        "opt" => opt::suite(&mut out, seed, count, &args),
         "malformed" => malformed::suite(&mut out, seed, count, &args),
         "replay" => {
             // re-run the ops of a file verbatim (used by --replay)
@@ -107,6 +109,8 @@ fn replay(out: &mut Out, path: &str) {
             lp::replay_line(out, line);
         } else if w.starts_with("fl.") || w == "#flapi" {
             float::replay_line(out, line);
+        } else if w.starts_with("op.") || w == "#opt" {
+            opt::replay_line(out, line);
         } else if w.starts_with("vd.") {
             validate::replay_line(out, line);
         } else if w.starts_with("mal.") {
